@@ -392,6 +392,10 @@ func TestC17(t *testing.T) {
 	core.Register(r, "rsa", wrapRSA)
 	core.Register(r, "file", wrapFile)
 	core.Register(r, "invalid", wrapInvalid)
+	core.Register(r, "fuzzbytes", func(c c17Bytes) *core.Failure {
+		r.Case(fmt.Sprintf("fuzz|%s|%x|%s", c.Target, c.A, c.Corpus), "fuzz-replay:"+c.Target)
+		return checkC17Bytes(c)
+	})
 	if r.Replays() {
 		return
 	}
@@ -516,4 +520,149 @@ func x509MarshalPKCS1(k *rsa.PrivateKey) []byte {
 		panic(err)
 	}
 	return b
+}
+
+// ---- native fuzz targets (thorough tier): bytes -> key parser, with a semantic oracle inside
+
+type c17Bytes struct {
+	Target string // pkcs8 | pem
+	A      []byte
+	Corpus string `json:",omitempty"`
+}
+
+func fuzzPKCS8(data []byte) (msg string) {
+	defer func() {
+		if p := recover(); p != nil {
+			msg = fmt.Sprintf("panic: %v", p)
+		}
+	}()
+	k, err := cert.ParsePKCS8PrivateKey(data)
+	if err != nil {
+		return ""
+	}
+	if ek, ok := k.(*ecdsa.PrivateKey); ok && ek.D.Sign() == 0 {
+		return "" // scalar 0 is unspecified (the standard library accepts it too)
+	}
+	// whatever gopki accepts must survive gopki's own writer and reader as the same key,
+	// and the independent decoder must read gopki's writer output as that key
+	out, err := cert.MarshalPKCS8PrivateKey(k)
+	if err != nil {
+		// accepted but not writable: only legitimate for keys gopki cannot represent (none expected)
+		return fmt.Sprintf("accepted key of type %T cannot be written again: %v", k, err)
+	}
+	k2, err := cert.ParsePKCS8PrivateKey(out)
+	if err != nil {
+		return fmt.Sprintf("gopki cannot read back its own encoding of an accepted key: %v", err)
+	}
+	switch a := k.(type) {
+	case *ecdsa.PrivateKey:
+		b, ok := k2.(*ecdsa.PrivateKey)
+		if !ok || a.D.Cmp(b.D) != 0 || a.Curve.Params().Name != b.Curve.Params().Name {
+			return "EC key changes across write/read"
+		}
+		if a.D.Sign() == 0 {
+			return "" // scalar 0: unspecified
+		}
+		xk, err := xref.ParsePKCS8(out)
+		if err != nil || xk.Kind != "ec" || xk.D.Cmp(a.D) != 0 || xk.Curve.Std.Params().Name != a.Curve.Params().Name {
+			return fmt.Sprintf("independent decoder disagrees on gopki's encoding of an accepted EC key (%v)", err)
+		}
+	case *rsa.PrivateKey:
+		b, ok := k2.(*rsa.PrivateKey)
+		if !ok || a.N.Cmp(b.N) != 0 || a.D.Cmp(b.D) != 0 {
+			return "RSA key changes across write/read"
+		}
+	}
+	return ""
+}
+
+func fuzzReadPem(data []byte) (msg string) {
+	defer func() {
+		if p := recover(); p != nil {
+			msg = fmt.Sprintf("panic: %v", p)
+		}
+	}()
+	pc, err := cert.ReadPem(data)
+	if err != nil {
+		return ""
+	}
+	// objects that were accepted can be written again and read back
+	var buf bytes.Buffer
+	if pc.Certificate != nil {
+		if err := pc.Certificate.WritePem(&buf); err != nil {
+			return "" // a certificate gopki can parse but not re-encode is not a C17 matter
+		}
+	}
+	if pc.PrivateKey != nil {
+		if ek, ok := pc.PrivateKey.(*ecdsa.PrivateKey); ok && ek.D.Sign() == 0 {
+			return "" // scalar 0 is unspecified
+		}
+		if err := cert.WritePrivateKeyToPem(pc.PrivateKey, &buf); err != nil {
+			return fmt.Sprintf("accepted key cannot be written: %v", err)
+		}
+	}
+	if pc.Request != nil {
+		pc.Request.WritePem(&buf)
+	}
+	pc2, err := cert.ReadPem(buf.Bytes())
+	if err != nil {
+		return fmt.Sprintf("gopki cannot read back the objects it accepted and re-wrote: %v", err)
+	}
+	if (pc.PrivateKey != nil) != (pc2.PrivateKey != nil) || (pc.Certificate != nil) != (pc2.Certificate != nil) {
+		return "objects lost across write/read"
+	}
+	return ""
+}
+
+func checkC17Bytes(c c17Bytes) *core.Failure {
+	if c.Corpus != "" {
+		cb := c20Bytes{Corpus: c.Corpus}
+		cb.decodeCorpus()
+		c.A = cb.A
+	}
+	var msg string
+	if c.Target == "pem" {
+		msg = fuzzReadPem(c.A)
+	} else {
+		msg = fuzzPKCS8(c.A)
+	}
+	if msg != "" {
+		return core.Failf("C17/fuzz-"+c.Target, "%s\ninput: %x", msg, c.A)
+	}
+	return nil
+}
+
+func fuzzSeedsPKCS8() [][]byte {
+	var out [][]byte
+	for i, name := range ecref.ConfigNames {
+		cv := ecref.Curves[name]
+		out = append(out, buildECPKCS8(cv, big.NewInt(int64(i+1)), ecEnc{OuterCurve: true, Public: i%2 == 0, InnerCurve: i%3 == 0}))
+	}
+	b, _ := x509.MarshalPKCS8PrivateKey(rsaKeys(1024)[0])
+	return append(out, b)
+}
+
+func FuzzPKCS8(f *testing.F) {
+	for _, s := range fuzzSeedsPKCS8() {
+		f.Add(s)
+	}
+	f.Fuzz(func(t *testing.T, data []byte) {
+		if m := fuzzPKCS8(data); m != "" {
+			t.Fatal(m)
+		}
+	})
+}
+
+func FuzzReadPem(f *testing.F) {
+	for _, s := range fuzzSeedsPKCS8() {
+		f.Add(core.PemBlock("PRIVATE KEY", s))
+	}
+	for _, s := range fuzzSeedsPem() {
+		f.Add(s)
+	}
+	f.Fuzz(func(t *testing.T, data []byte) {
+		if m := fuzzReadPem(data); m != "" {
+			t.Fatal(m)
+		}
+	})
 }
